@@ -157,6 +157,9 @@ type keptCopy struct {
 
 var theLive *liveEnv
 
+// sessSwap is what the server session's swap holds for the whole run.
+var sessSwap = map[string]string{"session-user": "alice", "session-zone": "eu-1"}
+
 const argTag, replyBody = 7, "ok"
 
 func viewMsg(m socket.Message, arg interface{}) msgView {
@@ -277,6 +280,12 @@ func newLive(cfg *RunCfg, st *Stats) *liveEnv {
 	if l.pair.SrvSess == nil || l.pair.CliSess == nil {
 		Must(fmt.Errorf("could not establish the live session pair"))
 	}
+	// the session carries custom data of its own (as an auth / heartbeat style plugin stores it):
+	// every context gets a per-message COPY of it, and nothing a handler stores in ctx.Swap()
+	// may come back to the session or to a later message
+	for k, v := range sessSwap {
+		l.pair.SrvSess.Swap().Store(k, v)
+	}
 	r := cfg.Rng
 	p := newKeyPool(r)
 	// a handful of probe shapes: only NEW fields are set by the probe request and handler
@@ -299,6 +308,11 @@ func newLive(cfg *RunCfg, st *Stats) *liveEnv {
 		l.shapes = append(l.shapes, rq)
 		l.probeOps = append(l.probeOps, ops)
 	}
+	// the reader goroutine took its first context before the entries above were stored (a context
+	// is acquired before its frame arrives): one throw-away call, so that every probed context
+	// was initialised from the session swap as it is now
+	l.probe(0)
+	l.copies, l.copyFail = nil, ""
 	for i := range l.shapes {
 		_, norm, _, ok := l.probe(i)
 		if !ok {
@@ -510,11 +524,20 @@ func (l *liveEnv) runCase(idx int) *history {
 		l.st.Fail(idx, "copymeta-changed", "a metadata copy obtained with ctx.CopyMeta() changed after its context was recycled: "+l.copyFail, fmt.Sprintf("shape=%d", shape))
 		l.copyFail = ""
 	}
+	if got, want := strings.Join(swapPairs(l.pair.SrvSess.Swap()), " "), strings.Join(sortedPairs(sessSwap), " "); got != want {
+		l.st.Fail(idx, "session-swap-changed", "entries stored in a context's Swap() reached the session's swap: session swap now reads "+clip(got), fmt.Sprintf("shape=%d", shape))
+		// put it back so that later cases are judged on their own
+		l.pair.SrvSess.Swap().Clear()
+		for k, v := range sessSwap {
+			l.pair.SrvSess.Swap().Store(k, v)
+		}
+		l.probe(0)
+	}
 	h := &history{kind: "ctx", via: "reset"}
 	if prev, seen := l.lastUse[ptr]; seen {
 		h.via, h.dirty = "pool", prev
 	}
-	h.extra = []string{VL(VN(1), VL())}
+	h.extra = []string{VL(VN(1), VL(sortedPairs(sessSwap)...))}
 	h.later = l.lastOps
 	h.obs = obs
 	// oracle: the same probe on contexts nobody had soiled (taken at start-up)
